@@ -83,6 +83,7 @@ CHECKS = {
 }
 
 NA_REASON = {
+ 'C18': "not built: deciding it needs template signatures (TemplateData with declaration orders), FileLibrary and HashMap<String,TemplateData> values for every anonymous-component shape under the executor plus an equivalence check against hand-written expansions; only the contains_* traversals are within easy reach and they cover half of the statement. No other technique substituted (DESIGN.md §4)",
  'C09': "quantifies over executions of analysed programs with a perturbed assignment: needs the taint/side-effect/constraint passes (several thousand lines of HashMap/HashSet/trait-object code) plus a reference interpreter under the symbolic executor; beyond the engine's reach, and Kani cannot run hash-map code on this code base (measured, DESIGN.md §1)",
 }
 
